@@ -56,6 +56,35 @@ def run(tier, replay=None):
             # prefer hierarchies with inheritance and overrides / self-assignments
             rich = [r for r in recs if any(r['h']['bases']) and (sum(len(x) for x in r['h']['own']) + sum(len(x) for x in r['h']['selfs'])) >= 2]
             pick = rng.sample(rich, 20000 if thorough else 900) + rng.sample(recs, 2000 if thorough else 100)
+            # deeper / wider hierarchies than the enumeration reaches: sampled, judged by the same operators (AttrsEval.tla)
+            deep = []
+            for n_cls, count in ((4, 6000 if thorough else 500), (5, 3000 if thorough else 0)):
+                if not count:
+                    continue
+                cands = []
+                for _ in range(count):
+                    bases = [[]]
+                    for i in range(2, n_cls + 1):
+                        k = rng.choice([0, 1, 1, 2, 2, 3]) if i > 2 else rng.choice([0, 1, 1])
+                        bases.append(rng.sample(range(1, i), min(k, i - 1)))
+                    cands.append({'bases': bases, 'own': [sorted(rng.sample(['p', 'q'], rng.choice([0, 1, 1, 2]))) for _ in range(n_cls)],
+                                  'selfs': [sorted(rng.sample(['p', 'r'], rng.choice([0, 0, 1, 2]))) for _ in range(n_cls)]})
+                cf = os.path.join(wd, 'cands%d.json' % n_cls)
+                json.dump(cands, open(cf, 'w'))
+                ec = os.path.join(wd, 'eval%d.cfg' % n_cls)
+                open(ec, 'w').write('SPECIFICATION EvalSpec\nCONSTANTS\n  N = %d\n  Fixed = TRUE\nINVARIANT LandsRight\nINVARIANT ProposesAll\n'
+                                    'INVARIANT ClassLandsRight\nINVARIANT Emit\nCHECK_DEADLOCK FALSE\n' % n_cls)
+                ev = core.tlc('AttrsEval', ec, env={'VERIF_CASES': cf}, workdir=wd, timeout=3000, xmx='6g')
+                if ev.error or ev.invariant:
+                    raise core.MachineryFailure('AttrsEval.tla (N = %d) fails: %s\n%s' % (n_cls, ev.error or ev.invariant, ev.out[-1500:]))
+                ck.add_tlc(ev)
+                got = [r for r in ev.records if isinstance(r, dict) and 'h' in r]
+                got.sort(key=lambda r: json.dumps(r, sort_keys=True))
+                deep += got
+            if len(deep) < 100:
+                raise core.MachineryFailure('AttrsEval.tla kept %d deep hierarchies' % len(deep))
+            ck.extra['deep_hierarchies'] = len(deep)
+            pick = pick + deep
             vectors = []
             for i, r in enumerate(pick):
                 variant = {'split': rng.choice([0, 0, 1, 2]), 'imp': rng.choice(['from', 'import', 'star']), 'main': rng.choice(['from', 'import', 'star'])}
